@@ -241,3 +241,33 @@ PROPS["C07"] = {
     "outside": "3-node clusters (a forced election at the youngest node of a 3-node cluster did not quiesce within 1500 scheduler steps under this timing model - repeated timeouts and set-primary 'wars' because acknowledgements queue behind connection handlers that are themselves waiting in an election; not adjudicated as a defect, therefore neither claimed nor listed as a finding); node joins and primary death (need the supervisor's connection management, which is not sliced); lock-level preemption inside handlers",
     "assumptions": ["environment shims", "cooperative scheduling: handlers are not preempted between sleeps", "the link pump mirrors handle_client / start_replication, the supervisor arms are mirrored"],
 }
+
+def _c18(name, q, t=None, covers=("snapshot.done",), thorough_only=False, budget=(900, 7200)):
+    h = {"name": name, "fn": "c18_history", "params": {"quick": q, "thorough": t or q}, "covers": list(covers), "budget_s": {"quick": budget[0], "thorough": budget[1]}}
+    if thorough_only: h["thorough_only"] = True
+    return h
+PROPS["C18"] = {
+    "level": "model_checking",
+    "harnesses": [
+        _c18("c18_s3_persisted", {"strategy": 1, "prefix": 1, "ops": 2}, {"strategy": 1, "prefix": 1, "ops": 3}),
+        _c18("c18_s3_fresh", {"strategy": 1, "prefix": 0, "ops": 3}, {"strategy": 1, "prefix": 0, "ops": 4}),
+        _c18("c18_part1_persisted", {"strategy": 2, "partitions": 1, "prefix": 1, "ops": 2}, {"strategy": 2, "partitions": 1, "prefix": 1, "ops": 3}),
+        _c18("c18_part1_fresh", {"strategy": 2, "partitions": 1, "prefix": 0, "ops": 3}, {"strategy": 2, "partitions": 1, "prefix": 0, "ops": 4}),
+        _c18("c18_part3_persisted", {"strategy": 2, "partitions": 3, "prefix": 2, "ops": 2}, {"strategy": 2, "partitions": 3, "prefix": 1, "ops": 2}),
+        _c18("c18_part10_persisted", {"strategy": 2, "partitions": 10, "prefix": 2, "ops": 1}, {"strategy": 2, "partitions": 10, "prefix": 2, "ops": 2}),
+        _c18("c18_s3_put_fails_once", {"strategy": 1, "prefix": 1, "ops": 1, "fault": 1}, {"strategy": 1, "prefix": 1, "ops": 2, "fault": 1}, covers=("snapshot.done", "fault.put-failed")),
+        _c18("c18_s3_put_fails_always", {"strategy": 1, "prefix": 1, "ops": 1, "fault": 2}, {"strategy": 1, "prefix": 1, "ops": 2, "fault": 2}, covers=("snapshot.done", "fault.put-failed")),
+        _c18("c18_s3_get_fails_once", {"strategy": 1, "prefix": 1, "ops": 1, "fault": 3}, covers=("snapshot.done", "expected-panic:unwrap")),
+        _c18("c18_part1_put_fails_once", {"strategy": 2, "partitions": 1, "prefix": 1, "ops": 1, "fault": 1}, {"strategy": 2, "partitions": 1, "prefix": 1, "ops": 2, "fault": 1}, covers=("snapshot.done", "fault.put-failed")),
+        _c18("c18_part3_put_fails_once", {"strategy": 2, "partitions": 3, "prefix": 2, "ops": 1, "fault": 1}, covers=("snapshot.done", "fault.put-failed")),
+        _c18("c18_part1_put_fails_always", {"strategy": 2, "partitions": 1, "prefix": 1, "ops": 1, "fault": 2}, {"strategy": 2, "partitions": 1, "prefix": 1, "ops": 2, "fault": 2}, covers=("snapshot.done", "expected-panic:Fail to store partition")),
+        _c18("c18_part1_get_fails_once", {"strategy": 2, "partitions": 1, "prefix": 1, "ops": 1, "fault": 3}, {"strategy": 2, "partitions": 3, "prefix": 2, "ops": 1, "fault": 3}, covers=("snapshot.done", "fault.get-failed")),
+        {"name": "c18_two_dbs_s3", "fn": "c18_two_dbs", "params": {"quick": {"strategy": 1}}},
+        {"name": "c18_two_dbs_part1", "fn": "c18_two_dbs", "params": {"quick": {"strategy": 2, "partitions": 1}}},
+        {"name": "c18_two_dbs_part3", "fn": "c18_two_dbs", "params": {"quick": {"strategy": 2, "partitions": 3}, "thorough": {"strategy": 2, "partitions": 10}}},
+    ],
+    "bounds": {"quick": "strategies s3 and s3_patition (1, 3 and 10 partitions; the key hash is an uninterpreted function: every assignment of keys to partitions is a solver choice) against the in-process bucket of the aws-sdk-s3 shim; histories of 2-3 operations over {set k0 v, set key1 v, remove k0, remove key1, increment n 3, snapshot false, snapshot true} from an empty database and after a first phase persisted by a full snapshot (3 keys; 1 key for 3 and 10 partitions); values of 1-3 symbolic printable bytes; then restart (start_db sequence with load_all_dbs) and comparison with the reference map frozen at the last completed snapshot; stub faults: the n-th PUT fails once / fails always, the n-th GET fails once, n a solver integer; two databases whose names share a prefix (d, da) with different strategies",
+               "thorough": "one more operation per history; 3 keys with 3 partitions; 10 partitions with 2 operations"},
+    "outside": "more than 1000 objects per listing (pagination); read prefix different from write prefix; concurrent loader threads (each database is loaded to completion at the spawn point); the AWS SDK itself (credentials, regions, HTTP), real SipHash values (covered by the uninterpreted hash); multi-byte UTF-8 content",
+    "assumptions": ["aws-sdk-s3 / aws-config / bytes / tokio shims: in-memory bucket listed in key order, futures ready at once, block_on = poll loop", "DefaultHasher = uninterpreted function (one solver integer per distinct content)", "thread::spawn runs the closure at the spawn point", "environment shims"],
+}
